@@ -116,7 +116,7 @@ def gen_real(ctx):
     sizes = [M - 1, M, M + 1] if ctx.quick() else [M - 1, M, M + 1, 2 * M, 2 * M + 1]
     for i, ln in enumerate(sizes):
         p = b"\x03" + b"a" * (ln - 1)
-        c = mk_case("c01_real_%d" % i, [("query", p, 0), ("query", b"\x03tail", 0)], [], lim=M, chunks=[2048, 2048, 1000, 3])
+        c = mk_case("c01_real_%d" % i, [("query", p, 0), ("query", b"\x03tail", 0)], [], lim=M, chunks=[2048, 3, 1 << 20, 1 << 24], cap=1 << 26)   # the transport splits to what the buffer offers
         cases.append(c)
     return cases
 
